@@ -274,8 +274,7 @@ func ValidateScriptWitnesses(tx Transaction, ls LedgerState) error {
 	inputs := tx.Inputs()
 	referenceInputs := tx.ReferenceInputs()
 
-	// Collect all script hashes required by script address inputs
-	requiredScriptHashes := make(map[ScriptHash]struct{}, len(inputs))
+	// Collect reference scripts provided by regular (spent) inputs
 	referenceProvided := make(map[ScriptHash]struct{}, len(inputs)+len(referenceInputs))
 	for _, input := range inputs {
 		utxo, err := ls.UtxoById(input)
@@ -287,21 +286,10 @@ func ValidateScriptWitnesses(tx Transaction, ls LedgerState) error {
 		if utxo.Output == nil {
 			continue
 		}
-		addr := utxo.Output.Address()
-
-		// Check if this is a script address (payment part is script)
-		if (addr.Type() & AddressTypeScriptBit) != 0 {
-			paymentScriptHash := addr.PaymentKeyHash()
-			// This is a script payment address that needs a script witness.
-			// The script can be provided via the witness set or via ScriptRef
-			// from any input (including the spent UTxO itself or reference inputs).
-			requiredScriptHashes[ScriptHash(paymentScriptHash)] = struct{}{}
-		}
 		// Regular (spent) inputs can also provide reference scripts.
 		if script := utxo.Output.ScriptRef(); script != nil {
 			referenceProvided[script.Hash()] = struct{}{}
 		}
-		// Note: Staking script validation is handled separately in delegation rules
 	}
 
 	// Collect explicit provided script witnesses (those carried in the tx)
@@ -348,6 +336,77 @@ func ValidateScriptWitnesses(tx Transaction, ls LedgerState) error {
 		if script := utxo.Output.ScriptRef(); script != nil {
 			referenceProvided[script.Hash()] = struct{}{}
 		}
+	}
+
+	// Collect the script hashes the transaction requires, and those it may
+	// provide without requiring them
+	requiredScriptHashes, optionalScriptHashes, err := RequiredScriptHashes(tx, ls)
+	if err != nil {
+		return err
+	}
+
+	// Check for missing script witnesses. A required script is satisfied if
+	// it appears in either explicit witnesses or reference scripts.
+	for required := range requiredScriptHashes {
+		if _, ok := explicitProvided[required]; !ok {
+			if _, ok := referenceProvided[required]; !ok {
+				return MissingScriptWitnessesError{ScriptHash: required}
+			}
+		}
+	}
+
+	// Check for extraneous explicit script witnesses. Reference scripts are
+	// not considered explicit witnesses and therefore are not extraneous.
+	// Scripts are allowed if they are either required OR optional (e.g., registration scripts).
+	for provided := range explicitProvided {
+		if _, ok := requiredScriptHashes[provided]; ok {
+			continue
+		}
+		if _, ok := optionalScriptHashes[provided]; !ok {
+			return ExtraneousScriptWitnessesError{ScriptHash: provided}
+		}
+	}
+
+	return nil
+}
+
+// RequiredScriptHashes returns the hashes of the scripts that the transaction
+// requires: the payment scripts of spent inputs, minting policies, and the
+// script credentials of certificates, withdrawals, voters and proposal
+// policies. The second result holds the scripts that are allowed but not
+// required (script credentials of registration certificates). Reference
+// scripts that merely sit on a spent or referenced UTxO are neither.
+func RequiredScriptHashes(
+	tx Transaction,
+	ls LedgerState,
+) (map[ScriptHash]struct{}, map[ScriptHash]struct{}, error) {
+	inputs := tx.Inputs()
+	// Collect all script hashes required by script address inputs
+	requiredScriptHashes := make(map[ScriptHash]struct{}, len(inputs))
+	for _, input := range inputs {
+		if ls == nil {
+			break
+		}
+		utxo, err := ls.UtxoById(input)
+		if err != nil {
+			// If we can't resolve the UTxO, we can't validate script witnesses
+			// This should be caught by BadInputsUtxo validation
+			continue
+		}
+		if utxo.Output == nil {
+			continue
+		}
+		addr := utxo.Output.Address()
+
+		// Check if this is a script address (payment part is script)
+		if (addr.Type() & AddressTypeScriptBit) != 0 {
+			paymentScriptHash := addr.PaymentKeyHash()
+			// This is a script payment address that needs a script witness.
+			// The script can be provided via the witness set or via ScriptRef
+			// from any input (including the spent UTxO itself or reference inputs).
+			requiredScriptHashes[ScriptHash(paymentScriptHash)] = struct{}{}
+		}
+		// Note: Staking script validation is handled separately in delegation rules
 	}
 
 	// Collect script hashes required by minting policies
@@ -475,7 +534,7 @@ func ValidateScriptWitnesses(tx Transaction, ls LedgerState) error {
 				requiredScriptHashes[hash] = struct{}{}
 			} else if len(policyHash) != 0 {
 				// Non-empty but invalid length - fail fast to surface upstream bugs
-				return fmt.Errorf(
+				return nil, nil, fmt.Errorf(
 					"malformed governance policy hash: got %d bytes, want %d",
 					len(policyHash),
 					Blake2b224Size,
@@ -484,29 +543,7 @@ func ValidateScriptWitnesses(tx Transaction, ls LedgerState) error {
 		}
 	}
 
-	// Check for missing script witnesses. A required script is satisfied if
-	// it appears in either explicit witnesses or reference scripts.
-	for required := range requiredScriptHashes {
-		if _, ok := explicitProvided[required]; !ok {
-			if _, ok := referenceProvided[required]; !ok {
-				return MissingScriptWitnessesError{ScriptHash: required}
-			}
-		}
-	}
-
-	// Check for extraneous explicit script witnesses. Reference scripts are
-	// not considered explicit witnesses and therefore are not extraneous.
-	// Scripts are allowed if they are either required OR optional (e.g., registration scripts).
-	for provided := range explicitProvided {
-		if _, ok := requiredScriptHashes[provided]; ok {
-			continue
-		}
-		if _, ok := optionalScriptHashes[provided]; !ok {
-			return ExtraneousScriptWitnessesError{ScriptHash: provided}
-		}
-	}
-
-	return nil
+	return requiredScriptHashes, optionalScriptHashes, nil
 }
 
 // ValidateExtraneousRedeemers checks that every redeemer in the
